@@ -1121,6 +1121,12 @@ func runChain(d Desc, cw *hlib.CaseWriter) {
 	cur := inb0
 	var verdicts []string
 	accepted := 0
+	type acc struct {
+		parent, result common.Hash
+		inbound        []*types.Transaction
+		c              candidate
+	}
+	var accs []acc
 	for i, c := range cs {
 		// Process opens the state at the parent's committed ETX-set root
 		st, err := state.New(types.EmptyRootHash, headRoot, big.NewInt(0), w.sdb, w.edb, nil, nodeLoc, logger)
@@ -1156,6 +1162,7 @@ func runChain(d Desc, cw *hlib.CaseWriter) {
 				fail("chain:commit", err.Error())
 				return
 			}
+			accs = append(accs, acc{headRoot, root, cur, c})
 			headRoot = root
 			accepted++
 			for _, it := range c.blk {
@@ -1168,6 +1175,19 @@ func runChain(d Desc, cw *hlib.CaseWriter) {
 			}
 			cur = c.next
 			delivered = append(delivered, c.next...)
+		}
+	}
+	// reorganisation: re-processing an earlier block from its parent's root (as after a switch of
+	// branch), in reverse order and on the same trie database, reproduces the same ETX root
+	for k := len(accs) - 1; k >= 0; k-- {
+		a := accs[k]
+		st, err := state.New(types.EmptyRootHash, a.parent, big.NewInt(0), w.sdb, w.edb, nil, nodeLoc, logger)
+		if err != nil {
+			fail("chain:reopen", fmt.Sprintf("cannot reopen the state at an earlier head: %v", err))
+			break
+		}
+		if v := processETXDiscipline(sites, st, a.inbound, a.c.blk, a.c.num, a.c.gl); v != vAccept || st.ETXRoot() != a.result {
+			fail("chain:fork-dependence", fmt.Sprintf("re-processing accepted block %d from its parent's ETX root gives verdict class %d and root %x, first time accepted with root %x", k, v, st.ETXRoot(), a.result))
 		}
 	}
 	st, err := state.New(types.EmptyRootHash, headRoot, big.NewInt(0), w.sdb, w.edb, nil, nodeLoc, logger)
